@@ -58,8 +58,10 @@ Enabled(prod) ==
       [] Fam = "fused" -> prod \in {"Select", "Where", "SelectMany", "OpDef", "Count"}     \* (comparisons are zero-cost leaves here)
       \* a filter / selection moved under the binder of a SelectMany while an enclosing CALLED lambda's parameter is live
       [] Fam = "betaw" -> prod \in {"Beta", "Where", "SelectMany", "First"}
+      \* called lambdas whose parameter lists go beyond plain parameters (positional-only, keyword-only, *args)
+      [] Fam = "betav" -> prod \in {"Select", "BetaSig", "Add", "Count", "First"}
       [] Fam = "betads" -> prod \in {"Select", "First", "BetaSeq", "Pack", "FirstProj"}
-      [] Fam = "chainf" -> prod \in {"Select", "Where", "Cmp", "Pack", "First", "FirstProj"}
+      [] Fam = "chainf" -> prod \in {"Select", "Where", "SelectMany", "Cmp", "Pack", "First", "FirstProj"}
       [] Fam = "corea" -> prod \in {"Select", "Where", "SelectMany", "First", "Count", "Cmp", "Add", "Beta"}
       [] Fam = "fuse1" -> prod \in {"Select", "Where", "SelectMany", "First", "Count", "Cmp", "Add",
                                     "Beta", "TupProj", "DictProj", "If", "MethArgs", "True"}
@@ -268,6 +270,24 @@ NonLeaf(h) ==
            THEN {Sub(Fn("First", <<Hole("SeqRec", r, ns, ss)>>), StrC("k1")), Attr(Fn("First", <<Hole("SeqRec", r, ns, ss)>>), "k2")}
            ELSE {})
        ELSE {}) \cup
+      (* called lambdas with positional-only / keyword-only / *args parameters *)
+      (IF s = "Int" /\ Enabled("BetaSig") THEN
+          LET mix(u, v) == BinOp("+", BinOp("*", u, IntC(10)), v)
+              h2 == {<<Hole("Int", sp[1], ns, ss), Hole("Int", sp[2], ns, ss)>> : sp \in Split2(r)}
+              h1 == Hole("Int", r, ns, ss)
+          IN {CallP(LamG("po0ko0va1kw0", 0, <<"a">>, mix(Sub(Name("a"), IntC(0)), Sub(Name("a"), IntC(1))), <<>>, <<>>), hs) : hs \in h2}
+             \cup {CallP(LamG("po0ko0va1kw0", 0, <<"a">>, Fn("len", <<Name("a")>>), <<>>, <<>>), <<h1>>)}
+             \cup {CallP(LamG("po0ko0va1kw0", 0, <<x, "a">>, mix(Name(x), Sub(Name("a"), IntC(0))), <<>>, <<>>), hs) : hs \in h2, x \in Binders}
+             \cup {CallP(LamG("po1ko0va0kw0", 0, <<x, "z">>, mix(Name(x), Name("z")), <<>>, <<>>), hs) : hs \in h2, x \in Binders}
+             \cup {CallK(LamG("po1ko0va0kw0", 0, <<x, "z">>, mix(Name(x), Name("z")), <<>>, <<>>), <<hs[1]>>, <<"z">>, <<hs[2]>>) :
+                       hs \in h2, x \in Binders}
+             \cup {CallP(LamG("po2ko0va0kw0", 1, <<x, "z">>, mix(Name(x), Name("z")), <<IntC(3)>>, <<>>), <<h1>>) : x \in Binders}
+             \cup {CallK(LamG("po0ko1va0kw0", 0, <<x, "k">>, mix(Name(x), Name("k")), <<>>, <<IntC(4)>>), <<hs[1]>>, <<"k">>, <<hs[2]>>) :
+                       hs \in h2, x \in Binders}
+             \cup {CallP(LamG("po0ko1va0kw0", 0, <<x, "k">>, mix(Name(x), Name("k")), <<>>, <<IntC(4)>>), <<h1>>) : x \in Binders}
+             \cup {CallK(LamG("po0ko1va0kw0", 0, <<x, "k">>, mix(Name(x), Name("k")), <<>>, <<Absent>>), <<hs[1]>>, <<"k">>, <<hs[2]>>) :
+                       hs \in h2, x \in Binders}
+       ELSE {}) \cup
       (* a parameter-less called lambda *)
       (IF s = "Int" /\ Enabled("Thunk") THEN {CallP(Lam(<<>>, Hole("Int", r, ns, ss)), <<>>)} ELSE {}) \cup
       (* a called lambda that selects over its argument; its inner lambda re-uses a binder name and its body sees *)
@@ -428,7 +448,12 @@ NonLeaf(h) ==
           {Fn("h_rec", <<Fn("Rec2", <<Hole("Int", r, ns, ss)>>)>>)} \cup
           {Fn("h_d3", <<Hole("Int", r, ns, ss)>>)} \cup
           {Fn("h_d3", <<Hole("Int", sp[1], ns, ss), Hole("Int", sp[2], ns, ss)>>) : sp \in Split2(r)} \cup
-          {CallK(Name("h_d3"), <<Hole("Int", sp[1], ns, ss)>>, <<"z">>, <<Hole("Int", sp[2], ns, ss)>>) : sp \in Split2(r)}
+          {CallK(Name("h_d3"), <<Hole("Int", sp[1], ns, ss)>>, <<"z">>, <<Hole("Int", sp[2], ns, ss)>>) : sp \in Split2(r)} \cup
+          \* positional-only and keyword-only parameters
+          {Fn(hn, <<Hole("Int", sp[1], ns, ss), Hole("Int", sp[2], ns, ss)>>) : hn \in {"h_po", "h_po2", "h_kwi"}, sp \in Split2(r)} \cup
+          {CallK(Name(hn), <<Hole("Int", sp[1], ns, ss)>>, <<"b">>, <<Hole("Int", sp[2], ns, ss)>>) :
+              hn \in {"h_po2", "h_ko", "h_kod"}, sp \in Split2(r)} \cup
+          {Fn("h_kod", <<Hole("Int", r, ns, ss)>>)}
        ELSE {}) \cup
       (* ---- helpers in the end-to-end family (integer arguments only) ---- *)
       (IF s = "Int" /\ Enabled("HelperE2E") THEN
@@ -475,7 +500,7 @@ Fill(t) ==
 RootSorts == CASE Fam = "chainp" -> {"SeqInt", "SeqSeqInt"}
                [] Fam = "mdp" -> {"SeqRecS", "SeqPS", "SeqInt"}
                [] Fam \in {"idx", "chain", "chain1", "chainx", "chainf"} -> {"SeqInt"}
-               [] Fam = "betads" -> {"SeqInt", "Int"}
+               [] Fam \in {"betads", "betav"} -> {"SeqInt", "Int"}
                [] Fam = "betaw" -> {"SeqTrk", "SeqJet"}
                [] Fam \in {"agg"} -> {"SeqInt", "Int"}
                [] Fam = "helper" -> {"SeqInt", "SeqJet"}
